@@ -112,7 +112,14 @@ class Scenario:
 
     def make_report(self, fclones):
         self.build()
-        p = core.run([fclones, "group", self.root, "--hidden"], timeout=120)
+        # `group` runs in a working directory of its own INSIDE the scenario (the report's "Base dir"): `move` later runs
+        # from elsewhere, so a relative DIR resolved against the wrong one stays inside the scratch area and is noticed
+        gcwd = os.path.join(self.base, "group_cwd")
+        os.makedirs(gcwd, exist_ok=True)
+        try:
+            p = core.run([fclones, "group", self.root, "--hidden"], timeout=120, cwd=gcwd)
+        finally:
+            os.rmdir(gcwd)
         if p.returncode != 0:
             raise RuntimeError("fclones group failed: " + p.stderr[-2000:])
         open(self.report, "w").write(p.stdout)
